@@ -38,6 +38,10 @@ CHECKS = {
             'instance is abandoned at each crash point and continued from the bundle in a fresh loop; executed steps, '
             'persisted trace, outputs, context and result are compared with the uninterrupted run', '5 C08',
             'deterministic simulation with crash/restart injection, differential oracle against the uninterrupted run'),
+    'C10': ('exploration', 'seeded search over workchains handing 1-4 bare futures / launched children to the context (both '
+            'registration ways, key re-assignment) x every completion order and placement with value / exception / child-kill '
+            'outcomes; barrier, context content and failure propagation checked at the entry of the following step', '5 C10',
+            'deterministic simulation: seeded completion-order search, barrier oracle'),
     'C13': ('exploration', 'seeded search over step chains with random arguments x crash points (checkpoint through deepcopy / '
             'pickle / YAML, abandon, restore in a fresh loop); recorded arguments and outcome compared with a reference model of '
             'the step commands', '5 C13', 'deterministic simulation with crash/restart injection, reference-model oracle'),
@@ -45,6 +49,10 @@ CHECKS = {
             'PicklePersister (real files) and a dictionary model while the processes keep running on the simulated loop; '
             'separate fault configuration with injected open() errors and torn writes under a relaxed, narrow oracle', '5 C14',
             'deterministic simulation: seeded operation histories against a reference model, disk-fault injection, restart'),
+    'C18': ('exploration', 'seeded search over 2-4 concurrently stepping processes with async steps of seeded virtual durations, '
+            'launched children, re-entrant child.execute() (nested loop runs), callbacks and hooks; every piece of generated '
+            'user code probes Process.current(), a sampler checks it between all handles of outer and nested loops', '5 C18',
+            'deterministic simulation: virtual-time interleaving search with in-code probes'),
 }
 
 NOT_APPLICABLE = [
@@ -58,10 +66,8 @@ NOT_APPLICABLE = [
 ]
 
 PENDING = {
-    'C10': 'check under construction in this session',
     'C16': 'check under construction in this session',
     'C17': 'check under construction in this session',
-    'C18': 'check under construction in this session',
     'C20': 'check under construction in this session',
 }
 
